@@ -93,6 +93,12 @@ async def _run(recipe, lines, tags):
     rq, eh0, svcs = _ENV[nsvc]
     eh = UpnpEventHandler(eh0._notify_server, rq)  # fresh registry
     rq.script, rq.park = [], None
+
+    def probe(sid_):
+        svc_ = eh.service_for_sid(sid_)
+        return None if svc_ is None else (svcs.index(svc_) if svc_ in svcs else 98)
+
+    rq.probe = probe
     rq.suspend = bool(recipe.get("susp", False))
     del rq.log[:]
     probes = list(dict.fromkeys(SIDS + [s for op in recipe["ops"] for s in sids_of(op)]))
@@ -141,9 +147,10 @@ async def _run(recipe, lines, tags):
             tags.add("exc:" + c09env.exc_tok(e).split(":")[0] + (":" + c09env.exc_tok(e).split(":")[1] if c09env.exc_tok(e).startswith("RAW") else ""))
         for _ in range(8):  # let tasks left behind by gather() finish
             await __import__("asyncio").sleep(0)
-        for method, url, headers, react in rq.log:
+        for method, url, headers, react, inflight in rq.log:
             hs = ",".join(f"{k_}={tok_str(v)}" for k_, v in sorted((k2.upper(), str(v2)) for k2, v2 in headers.items()))
-            lines.append(f"req {method} {c09env.svc_index(url)} {hs or '~'} {r_tok(react) if react else 'connerr'}")
+            lines.append(f"req {method} {c09env.svc_index(url)} {hs or '~'} r={'!' if inflight is None else inflight} "
+                         f"{r_tok(react) if react else 'connerr'}")
             if react and react[0] == "resp" and react[1] == 200 and react[2] is not None and method == "SUBSCRIBE":
                 if granted:
                     nontrivial = True
